@@ -20,7 +20,11 @@ impl FlattenedJson {
     /// Create a `FlattenedJson` from `Raw`.
     pub fn from_raw<T>(raw: &Raw<T>) -> Self {
         let mut s = Self { map: BTreeMap::new() };
-        s.flatten_value(to_json_value(raw).unwrap(), "".into());
+        // The conversion can fail, for example if the JSON is nested too deeply.
+        match to_json_value(raw) {
+            Ok(value) => s.flatten_value(value, "".into()),
+            Err(error) => warn!("Could not flatten JSON: {error}"),
+        }
         s
     }
 
